@@ -1018,5 +1018,9 @@ func generate(seed int64, n int) []*Case {
 	for i := 0; i < n/4; i++ {
 		res = append(res, convCase(r, n+n*5/2+1000+3*n+i))
 	}
+	// modelled stream 6: histories through the real StableSqlxDBWrapper (coq/model/ReadPool.v), n/6 histories of 2..6 requests
+	for i := 0; i < n/6; i++ {
+		res = append(res, poolCase(r, n+n*5/2+1000+4*n+i))
+	}
 	return res
 }
